@@ -345,10 +345,9 @@ func judgeInclude(args, real, drv json.RawMessage) *core.Verdict {
 		Class string `json:"class"`
 	}
 	json.Unmarshal(drv, &d)
-	cls := core.Class(real)
-	if cls == "hang" || cls == "fatal" {
+	if why := nonTermination(real); why != "" {
 		// the real loader does not return: a violation of the property whatever the model says
-		v := core.Fail("hang@include/override-position", "include graph on which the loader does not return ("+string(real)+")")
+		v := core.Fail("hang@include-override-position", "include graph on which the loader does not return ("+why+")")
 		if d.Class != "outOfFuel" {
 			v.What += " — and the model expected " + d.Class
 		}
